@@ -98,16 +98,29 @@ def all_docs(max_nodes: int):
     return out
 
 
+# the same documents once more with the key names the registry files really use (a merge that treats
+# some key names specially is not a deep later-wins merge)
+REAL_KEYS = {"a": "positions", "b": "bban_spec", "c": "bank_code"}
+
+
+def renamed(doc, names):
+    if isinstance(doc, dict):
+        return {names.get(k, k): renamed(v, names) for k, v in doc.items()}
+    return doc
+
+
 def merge_shard(args):
-    _, lo, hi, max_nodes = args
+    _, lo, hi, max_nodes = args[:4]
     part = par.Part()
     docs = all_docs(max_nodes)
+    if len(args) > 4 and args[4] == "real-keys":
+        docs = [renamed(d, REAL_KEYS) for d in docs]
     merge = lib.registry.merge_dicts
     for i in range(lo, hi):
         left = docs[i]
         for right in docs:
             l, r = copy.deepcopy(left), copy.deepcopy(right)
-            part.count((i, json.dumps(right, sort_keys=True)))
+            part.count((i, json.dumps(right, sort_keys=True)) + tuple(args[4:]))
             try:
                 got = merge(l, r)
             except Exception as e:  # noqa: BLE001
@@ -159,6 +172,9 @@ OVERLAYS = {
     "O_dict_over_scalar": {"IT": {"country": {"x": 1}}, "DE": {"positions": {"bank_code": [0, 8]}}},
     # a dict again where an earlier overlay put a scalar (dict / scalar / dict sandwich over three files)
     "O_dict_again": {"FR": {"positions": {"bank_code": [0, 5]}}},
+    # a changed structure string together with a PARTIAL position table, in one entry
+    "O_spec_and_positions": {"DE": {"bban_spec": "8!n10!c", "positions": {"account_code": [8, 18]}},
+                             "GB": {"bban_spec": "4!a6!n8!c", "positions": {"branch_code": [4, 10]}}},
     # keys that differ from an existing one only by case are NEW keys
     "O_lower_key": {"de": {"bban_length": 1, "iban_length": 5, "bban_spec": "1!n"}, "Xx": {"bban_length": 2, "iban_length": 6, "bban_spec": "2!a", "in_sepa_zone": True}},
 }
@@ -498,6 +514,9 @@ out["de_sepa"] = oc(lambda: IBAN("DE89370400440532013000").in_sepa_zone)
 out["gb_account"] = oc(lambda: IBAN("GB29NWBK60161331926819").account_code)
 out["lookup"] = oc(lambda: BIC.from_bank_code("DE", "99999999"))
 out["lookup_candidates"] = oc(lambda: [str(b) for b in BIC.candidates_from_bank_code("DE", "99999999")])
+out["bg_bic"] = oc(lambda: IBAN(sys.argv[2]).bic)
+out["bg_bank_name"] = oc(lambda: IBAN(sys.argv[2]).bank_name)
+out["bg_bban_bic"] = oc(lambda: IBAN(sys.argv[2]).bban.bic)
 print("OUT=" + json.dumps(out))
 """
 
@@ -518,7 +537,9 @@ def e2e_problems(cfg):
         bban = "1234A5B6C7"
         text = NEW + ri.check_digits(NEW, bban) + bban
         env = dict(os.environ, PYTHONPATH=str(tmp))
-        p = subprocess.run([sys.executable, "-c", CHILD, text], capture_output=True, text=True, env=env,
+        bg_bban = "ZZZZ" + "1234" + "10" + "12345678"
+        bg_text = "BG" + ri.check_digits("BG", bg_bban) + bg_bban
+        p = subprocess.run([sys.executable, "-c", CHILD, text, bg_text], capture_output=True, text=True, env=env,
                            cwd=str(tmp), timeout=300)
         line = [ln for ln in p.stdout.splitlines() if ln.startswith("OUT=")]
         if p.returncode != 0 or not line:
@@ -546,6 +567,24 @@ def e2e_problems(cfg):
         want = ["ok", str(cands)] if cands is not None else ["raises", "InvalidBankCode"]
         if out["lookup_candidates"] != want:
             probs.append(("end-to-end: candidates for overlay bank", want, out["lookup_candidates"]))
+        # the bank-identifying key of an IBAN is the listed components JOINED IN THE LISTED ORDER
+        bg = exp_table.get("BG", {})
+        if isinstance(bg.get("positions"), dict):
+            comps = bg.get("bic_lookup_components", ["bank_code"])
+            key = "".join(bg_bban[bg["positions"][c][0]:bg["positions"][c][1]] for c in comps)
+            index = lookup.index_by_key(exp_banks)
+            es = index.get(("BG", key))
+            cands = lookup.candidates_in(index, "BG", key)
+            want_name = ["ok", str(es[0]["name"] if es else None)]
+            if out["bg_bank_name"] != want_name:
+                probs.append(("end-to-end: bank of an IBAN does not follow the effective lookup components",
+                              {"components": comps, "key": key, "bank_name": want_name}, out["bg_bank_name"]))
+            for which in ("bg_bic", "bg_bban_bic"):
+                got = out[which]
+                good = (got == ["ok", "None"]) if not cands else (got[0] == "ok" and lookup.selection_ok(cands, got[1]))
+                if not good:
+                    probs.append(("end-to-end: BIC of an IBAN does not follow the effective lookup components",
+                                  {"components": comps, "key": key, "candidates": cands}, {which: got}))
         return probs
     finally:
         shutil.rmtree(tmp, ignore_errors=True)
@@ -557,7 +596,17 @@ def e2e_configs():
     bank_v2 = {"expand_from": "bank_codes", "expand_into": "bank_code", "entries": [
         {"country_code": "DE", "bic": "YYYYDEYY", "name": "y", "short_name": "y",
          "bank_codes": ["99999999", "99999998"]}]}
+    def bg(code, bic, name):
+        return {"country_code": "BG", "bank_code": code, "bic": bic, "name": name, "short_name": name,
+                "primary": True}
+    bg_banks = [bg("ZZZZ10", "ZZZZBGZZ", "gap"), bg("ZZZZ123410", "YYYYBGYY", "run"), bg("ZZZZ", "XXXXBGXX", "plain"),
+                bg("1234ZZZZ", "WWWWBGWW", "reversed"), bg("ZZZZ1234", "VVVVBGVV", "forward")]
     return [
+        ("lookup components with a gap between them", {"zz_last.json": {"BG": {"bic_lookup_components": [
+            "bank_code", "account_type"]}}}, {"zz_bank.json": bg_banks}),
+        ("lookup components in reverse order", {"zz_last.json": {"BG": {"bic_lookup_components": [
+            "branch_code", "bank_code"]}}}, {"zz_bank.json": bg_banks}),
+        ("lookup components default, same banks", {}, {"zz_bank.json": bg_banks}),
         ("bundled only", {}, {}),
         ("add country last", {"zz_last.json": OVERLAYS["O_add"]}, {}),
         ("add country first", {"00_first.json": OVERLAYS["O_add"]}, {}),
@@ -672,6 +721,7 @@ def main(tier: str) -> int:
     ndocs = len(all_docs(max_nodes))
     step = max(1, ndocs // 48)
     shards = [("merge", i, min(ndocs, i + step), max_nodes) for i in range(0, ndocs, step)]
+    shards += [("merge", i, min(ndocs, i + step), max_nodes, "real-keys") for i in range(0, ndocs, step)]
     nsmall = len(all_docs(2))
     shards += [("merge3", i, min(nsmall, i + 4)) for i in range(0, nsmall, 4)]
     pool = ["generated.json", "overwrite.json"] + list(OVERLAYS)
